@@ -186,6 +186,56 @@ def standins():
     return len(fails)
 
 
+# --------------------------------------------------------------------------- reference peer / model sanity
+
+def refpeer_tests():
+    from sim import refpeer as rp
+    from sim import model as M
+    fails = []
+
+    def check(name, cond):
+        if not cond:
+            fails.append(name)
+        print("  %-62s %s" % (name, "ok" if cond else "FAIL"))
+
+    o = rp.encode_open(4200000000, 90, "1.2.3.4", [rp.cap_mp(1, 1), rp.cap_as4(4200000000), rp.cap_rr()], one_param_each=False)
+    fr, rest = rp.deframe(o)
+    m = rp.decode_open(fr[0].body)
+    check("OPEN round trip (AS_TRANS + capability 65, one parameter)", (m.version, m.my_as, m.true_as, m.hold, m.bgp_id) == (4, 23456, 4200000000, 90, "1.2.3.4")
+          and m.cap_codes() == [1, 2, 65] and not rest)
+    u = rp.encode_update(["10.0.0.0/8"], {"origin": 2, "as_path": [(2, [65536, 1]), (1, [7])], "next_hop": "1.1.1.1", "med": 5,
+                                           "local_pref": 7, "atomic": True, "aggregator": (65536, "2.2.2.2"), "communities": [0xFFFFFF01]},
+                         ["192.168.1.128/25", "0.0.0.0/0"], as4=True)
+    d = rp.decode_update(rp.deframe(u)[0][0].body, True)
+    check("UPDATE round trip (4-octet, all subset attributes, /0 and /25)",
+          d["withdrawn"] == ["10.0.0.0/8"] and d["nlri"] == ["192.168.1.128/25", "0.0.0.0/0"] and d["attrs"]["as_path"] == [(2, [65536, 1]), (1, [7])]
+          and d["attrs"]["aggregator"] == (65536, "2.2.2.2") and d["attrs"]["communities"] == [0xFFFFFF01] and d["attrs"]["atomic"] is True)
+    check("prefix trailing bits are masked", rp.decode_prefixes(bytes([9, 10, 0xFF])) == ["10.128.0.0/9"])
+    try:
+        rp.decode_prefixes(bytes([33, 1, 2, 3, 4, 5]))
+        check("prefix length 33 rejected", False)
+    except ValueError:
+        check("prefix length 33 rejected", True)
+    ka = rp.encode_keepalive()
+    check("deframer: two frames + partial tail", [f.type for f in rp.deframe(ka + ka + ka[:7])[0]] == [4, 4] and rp.deframe(ka + ka + ka[:7])[1] == ka[:7])
+    check("deframer: bad marker / length 18 / length 4097 / type 9",
+          [rp.deframe(x)[0][0].error for x in (b"\x00" + ka[1:], rp.frame(4, b"", length=18), rp.frame(4, b"", length=4097), rp.frame(9, b""))]
+          == [("marker", 1), ("length", 2), ("length", 2), ("type", 3)])
+    check("deframer: length 4096 accepted", not rp.deframe(rp.frame(2, bytes(4077)))[0][0].error)
+    cfg = {"hold_time": 180, "idle_hold_time": 30, "connect_retry_time": 30, "remote_as": 65002, "call_later": 15}
+    mm = M.Model(cfg)
+    mm = M.match_events(mm, [("fire",)], [("connect", 0)], 15.0)
+    mm = M.match_events(mm, [("conn_ok", 0)], [("tx", 0, "OPEN")], 15.0)
+    check("model: boot -> Connect -> OpenSent", mm is not None and mm.phase == "OpenSent")
+    bad = M.match_events(mm, [("msg", 0, "keepalive", None)], [], 15.0)
+    good = M.match_events(mm, [("msg", 0, "keepalive", None)], [("tx", 0, ("NOTIF", 5, 1)), ("lose", 0)], 15.0)
+    check("model: KEEPALIVE in OpenSent must be answered with NOTIFICATION(5) + close", bad is None and good is not None and good.phase == "Idle")
+    m2 = M.match_events(mm, [("msg", 0, "open", {"version": 4, "true_as": 65002, "hold": 9})], [("tx", 0, "KEEPALIVE")], 15.0)
+    check("model: H = min(configured, proposed); timers at H/3 and H", m2.H == 9 and abs(m2.t_ka - 18.0) < 1e-9 and m2.t_hold == [24.0])
+    check("model: missed hold expiry is reported", m2.missed(25.0)[0][0] in ("hold", "keepalive") and ("hold", 24.0) in m2.missed(25.0))
+    return len(fails)
+
+
 # --------------------------------------------------------------------------- mutants
 
 MUTANTS = [
@@ -302,6 +352,8 @@ def main(argv, seed, jobs):
     if a.standins:
         print("stand-in contract tests")
         bad += standins()
+        print("reference peer / model sanity tests")
+        bad += refpeer_tests()
     if a.determinism:
         bad += determinism(props, a.determinism)
     if a.mutants:
